@@ -370,7 +370,9 @@ def forwards_to_super(obj, cls=None, *args, **kwargs):
         inner = getattr(
             super(_get_origin_class(obj, cls), self),
             obj.__name__)
-    except AttributeError as e:
+    except (AttributeError, TypeError) as e:
+        # TypeError: the method was installed in a class that does not
+        # derive from the one it was written for
         raise ForwardingTargetNotFound(*e.args)
     return forwards(obj, inner, *args, **kwargs)
 
